@@ -412,6 +412,32 @@ func AnalyseMethod(fset *token.FileSet, fd *ast.FuncDecl) *Method {
 			}
 		}
 	}
+	// A-SHADOW: the keys that are NOT additional are enumerated by reflection over a struct type; that type must be the shadow type
+	// of the value that was decoded (`plain`), not whatever package-level type happens to carry the name
+	plainType := ""
+	for _, s := range fd.Body.List {
+		if ds, ok := s.(*ast.DeclStmt); ok {
+			if gd, ok := ds.Decl.(*ast.GenDecl); ok {
+				for _, sp := range gd.Specs {
+					if vs, ok := sp.(*ast.ValueSpec); ok && len(vs.Names) == 1 && vs.Names[0].Name == "plain" && vs.Type != nil {
+						plainType = exprStr(fset, vs.Type)
+					}
+				}
+			}
+		}
+	}
+	ast.Inspect(fd.Body, func(n ast.Node) bool {
+		call, ok := n.(*ast.CallExpr)
+		if !ok || exprStr(fset, call.Fun) != "reflect.TypeOf" || len(call.Args) != 1 {
+			return true
+		}
+		if cl, ok := unparen(call.Args[0]).(*ast.CompositeLit); ok && cl.Type != nil {
+			if t := exprStr(fset, cl.Type); plainType != "" && t != plainType {
+				m.Problems = append(m.Problems, "A-SHADOW: the declared keys are enumerated from reflect.TypeOf("+t+"{}) at line "+strconv.Itoa(line(call))+", but the decoded value `plain` has the shadow type "+plainType+": another type's fields decide which keys count as additional")
+			}
+		}
+		return true
+	})
 	// A-AON: final assignment then return nil
 	n := len(fd.Body.List)
 	if m.FinalIdx < 0 {
